@@ -683,7 +683,7 @@ def run_c16(seed, focus):
     problems, tried = [], 0
     for wname, targets in WORKFLOWS.items():
         deps = deps_of(targets)
-        for args in ([], [targets[-1]["name"]], [targets[0]["name"]]):
+        for args in ([], [targets[-1]["name"]], [targets[0]["name"]], ["nomatch"]):
             for existing in ([], [o for t in targets for o in t["outputs"]][::2]):
                 tried += 1
                 p = Project(targets)
@@ -730,7 +730,8 @@ def run_c16(seed, focus):
                                 reach(d)
 
                     for n in (args or [t["name"] for t in targets]):
-                        reach(n)
+                        if n in deps:                 # a name that matches nothing selects nothing
+                            reach(n)
                     after = p.snapshot()
                     for rel, content in before.items():
                         if not rel.startswith(".gwf") and after.get(rel) != content:
